@@ -687,7 +687,7 @@ def main():
     fams = mod.families(tier)
     if a.only:
         for f in fams:
-            f.obls = [o for o in f.obls if a.only in o.oid]
+            f.obls = [o for o in f.obls if (a.only in o.oid or re.search(a.only, o.oid))]
         fams = [f for f in fams if f.obls]
     if a.list:
         for f in fams:
